@@ -246,7 +246,7 @@ func (_this *Context) NotifyKey(key interface{}) {
 		copy(uid[:], v)
 		key = uid
 	case compact_time.Time:
-		key = v.String()
+		key = timeKey(v.String())
 	case *big.Int:
 		if v.IsUint64() {
 			key = v.Uint64()
